@@ -82,6 +82,20 @@ impl StreamBuilder {
 
     /// Appends another stream to this one.
     pub fn append(&mut self, mut other: StreamBuilder) {
+        // chunks are streamed before `sync_buf`: text buffered so far has to be
+        // flushed in front of the other builder's in-order chunks, or they would
+        // overtake it (out-of-order chunks carry no position, so they do not
+        // need the flush)
+        if other
+            .chunks
+            .iter()
+            .any(|chunk| !matches!(chunk, StreamChunk::OutOfOrder { .. }))
+        {
+            let sync = mem::take(&mut self.sync_buf);
+            if !sync.is_empty() {
+                self.chunks.push_back(StreamChunk::Sync(sync));
+            }
+        }
         self.chunks.append(&mut other.chunks);
         self.sync_buf.push_str(&other.sync_buf);
     }
